@@ -144,6 +144,8 @@ def run(ctx, b, drv):
             if '\r' in code or '\x0c' in code:
                 continue
             srcs.append(('gen:%s:%d' % (kind, i), code))
+        for i in range(ngen):
+            srcs.append(('derived:%d' % i, gens.derived(gens.rng(ctx.seed, 'derived-%s-%s' % ('C10', v), i), v)))
         refs = refpy.run_ref('ref_tok.py', v, [s for _, s in srcs])
         old = None
         acc = 0
